@@ -330,7 +330,7 @@ def judge(ctx, r, dec, obs, prior, prefix, where):
     if obs.get('panic'):
         ctx.violation('C12:upload:panic:%s' % cls, detail, '%s: request (%s) made the handler chain panic: %s' % (where, cls, obs['panic']))
         return None
-    touched = obs['created'] + obs['changed'] + obs['removed']
+    touched = obs['created'] + obs['changed'] + obs['removed'] + obs.get('dirs_created', []) + obs.get('dirs_removed', [])
     ok = True
     if sc == '5xx':
         ctx.violation('C12:upload:5xx:%s' % sig5(cls), detail, '%s: %s %s with body class [%s] answered %s (%s); no input may produce a 5xx answer' % (
@@ -359,6 +359,9 @@ def judge(ctx, r, dec, obs, prior, prefix, where):
                           '%s: valid report (%s): bucket should hold the object named by week %r and X %r; unexpected %s missing %s' % (
                               where, cls, key[0], key[1], extra, missing))
             ok = False
+        elif dir_problem(obs, want_after, prefix):
+            ctx.violation('C12:upload:store-directories:%s' % cls, detail, '%s: valid report (%s): %s' % (where, cls, dir_problem(obs, want_after, prefix)))
+            ok = False
         else:
             if not inside_touched <= {key} or (key not in prior and key not in inside_touched) or obs['removed']:
                 ctx.violation('C12:upload:store-effect:%s' % cls, detail, '%s: valid report (%s): objects created/changed %s, expected only %s; removed %s' % (
@@ -377,9 +380,9 @@ def judge(ctx, r, dec, obs, prior, prefix, where):
         ctx.violation('C12:upload:invalid-accepted:%s' % cls, detail, '%s: request (%s) must be refused with 4xx but answered %s' % (where, cls, obs.get('status')))
         ok = False
     if touched:
-        what = 'stored' if obs['created'] or obs['changed'] else 'removed'
-        ctx.violation('C12:upload:reject-%s:%s' % (what, cls), detail, '%s: request (%s, status %s) must change nothing but created %s changed %s removed %s' % (
-            where, cls, obs.get('status'), obs['created'], obs['changed'], obs['removed']))
+        what = 'stored' if obs['created'] or obs['changed'] else 'removed' if obs['removed'] else 'created-directory' if obs.get('dirs_created') else 'removed-directory'
+        ctx.violation('C12:upload:reject-%s:%s' % (what, cls), detail, '%s: request (%s, status %s) must create or change nothing but created %s changed %s removed %s; directories created %s removed %s' % (
+            where, cls, obs.get('status'), obs['created'], obs['changed'], obs['removed'], obs.get('dirs_created'), obs.get('dirs_removed')))
         ok = False
     return set(prior) if ok else None
 
@@ -398,6 +401,16 @@ def ndev(req, primary):
 def sig5(cls):
     """5xx signatures: one class for every report that carries a null program"""
     return 'programs-null-element' if 'programs-null-element' in cls else cls
+
+
+def dir_problem(obs, keys, prefix):
+    """The only directories below the bucket directory are those of the weeks of
+    the stored objects (Dirs(bucket) of Server.tla); '' if that holds."""
+    want = {prefix + k[0] + '/' for k in keys}
+    got = set(obs.get('dirs') or [])
+    if got != want:
+        return 'directories below the bucket should be %s; unexpected %s missing %s' % (sorted(want), sorted(got - want), sorted(want - got))
+    return ''
 
 
 def body_preview(r):
@@ -732,7 +745,7 @@ def trace_record(absr, obs, prefix):
     def keyrec(k):
         w = Gen.abs_week(k[0])
         return {'y': w['y'], 'm': w['m'], 'd': w['d'], 'x': repr(k[1]), '_iso': w['shape'] == 'iso'}
-    touched = obs['created'] + obs['changed'] + obs['removed']
+    touched = obs['created'] + obs['changed'] + obs['removed'] + obs.get('dirs_created', []) + obs.get('dirs_removed', [])
     outside = any(not p.startswith(prefix) for p in touched)
     before_paths = sorted((set(obs['listing']) - set(obs['created'])) | set(p for p in obs['removed'] if p.startswith(prefix)))
     kb, bad1 = listing_keys(before_paths, prefix)
@@ -747,6 +760,12 @@ def trace_record(absr, obs, prefix):
     recs['matches'] = [keyrec(k) for k in sorted(km)]
     for k in recs['matches']:
         k.pop('_iso')
+    dirs = []
+    for dpath in obs.get('dirs') or []:
+        w = Gen.abs_week(dpath[len(prefix):].rstrip('/'))
+        if w['shape'] != 'iso':
+            badnames = True
+        dirs.append({'y': w['y'], 'm': w['m'], 'd': w['d']})
     req = {k: absr[k] for k in ('kind', 'method', 'week', 'config', 'pform', 'len', 'declared')}
     req['x'] = {'kind': absr['x']['kind'], 'val': absr['x']['val']}
     req['programs'] = absr['programs']
@@ -754,7 +773,7 @@ def trace_record(absr, obs, prefix):
     if obs.get('panic') or obs.get('hang'):
         sc = 'crash'
     return {'op': 'req', 'req': req, 'status': sc, 'before': recs['before'], 'after': recs['after'], 'touched': recs['touched'],
-            'matches': recs['matches'], 'outside': outside, 'badnames': badnames}
+            'matches': recs['matches'], 'dirs': dirs, 'outside': outside, 'badnames': badnames}
 
 
 # ------------------------------------------------------- requests in flight together
@@ -785,7 +804,7 @@ def judge_round(ctx, reqs, decs, obs, prior, prefix, where):
             ctx.violation('C12:upload:concurrent:status:%s' % devclass(r), detail, '%s: %s request (%s, decision %s), one of %d in flight together, answered %s' % (
                 where, r['method'], devclass(r), d, n, obs['status'][i]))
             ok = False
-    touched = obs['created'] + obs['changed'] + obs['removed']
+    touched = obs['created'] + obs['changed'] + obs['removed'] + obs.get('dirs_created', []) + obs.get('dirs_removed', [])
     outside = [p for p in touched if not p.startswith(prefix)]
     if outside:
         ctx.violation('C12:upload:concurrent:outside-bucket', detail, '%s: %d requests in flight together created or changed %s outside the upload bucket' % (where, n, outside))
@@ -802,6 +821,9 @@ def judge_round(ctx, reqs, decs, obs, prior, prefix, where):
                       '%s: after %d requests in flight together (%s) the bucket should hold %s; unexpected %s missing %s removed %s' % (
                           where, n, cls, sorted(map(str, want_after)), sorted(map(str, keys_after - want_after)) + badnames, sorted(map(str, want_after - keys_after)), obs['removed']))
         return None
+    if dir_problem(obs, want_after, prefix):
+        ctx.violation('C12:upload:concurrent:directories', detail, '%s: %s' % (where, dir_problem(obs, want_after, prefix)))
+        ok = False
     if not inside_touched <= set(storing):
         ctx.violation('C12:upload:concurrent:effect', detail, '%s: %d requests in flight together changed %s, only %s are named by accepted reports' % (
             where, n, sorted(map(str, inside_touched - set(storing))), sorted(map(str, storing))))
